@@ -141,6 +141,43 @@ def run(ctx):
                 ctx.case('m' + canon(bb) + canon(l) + canon(rr) + str(bits), bool(ds))
                 nbb = nbformat.from_dict(copy.deepcopy(bb))
                 render(ctx, 'pretty_print_merge_decisions', lambda cfg: pp.pretty_print_merge_decisions(nbb, ds, cfg), make_cfg(bits, use_color, False, tool), data)
+    # every changed source line is printed (the finest reading of "prints something for every diff that touches a
+    # non-ignored category"): one line removed / added / changed, among lines that look like diff syntax
+    nasty = ['--- a', '-- comment', '++i;', '+++ x', '@@ -1 +1 @@', 'diff --git a/x b/x', 'index 123..456 100644', '< old', '> new', '---', '+++',
+             '<<<<<<< local', '=======', '>>>>>>> remote', '\\ No newline at end of file']
+    for t in range(30 if ctx.tier == 'quick' else 600):
+        lines = ['%s = %d' % (rng.choice('abcdefgh'), rng.randrange(100)) if rng.random() < 0.6 else rng.choice(nasty) + ' %d' % i for i in range(rng.randrange(2, 7))]
+        i = rng.randrange(len(lines))
+        new = rng.choice(nasty) if rng.random() < 0.7 else 'value = %d' % rng.randrange(1000)
+        mode = rng.choice(['remove', 'add', 'change'])
+        if mode == 'remove':
+            la, lb, removed, added = lines, lines[:i] + lines[i + 1:], [lines[i]], []
+        elif mode == 'add':
+            la, lb, removed, added = lines, lines[:i] + [new + ' new'] + lines[i:], [], [new + ' new']
+        else:
+            la, lb, removed, added = lines, lines[:i] + [new + ' chg'] + lines[i + 1:], [lines[i]], [new + ' chg']
+        if lines.count(lines[i]) > 1:
+            continue
+        a = {'nbformat': 4, 'nbformat_minor': 5, 'metadata': {}, 'cells': [{'cell_type': 'code', 'id': 'c1', 'metadata': {}, 'execution_count': None, 'outputs': [],
+                                                                               'source': ''.join(x + '\n' for x in la)}]}
+        b = copy.deepcopy(a)
+        b['cells'][0]['source'] = ''.join(x + '\n' for x in lb)
+        r, _ = c01.impl_diffnb(a, b)
+        if r[0] != 'ok':
+            continue
+        d = to_diffentry_dicts(copy.deepcopy(r[1]))
+        tool = ['git', 'diff', 'difflib'][t % 3]
+        data = {'a': enc(a), 'b': enc(b), 'ignored': [], 'use_color': False, 'color_words': False, 'tool': tool}
+        ctx.count('changed-line:' + tool)
+        ctx.case('L' + canon(a) + canon(b) + tool, True)
+        out = render(ctx, 'pretty_print_notebook_diff', lambda cfg: pp.pretty_print_notebook_diff('a.ipynb', 'b.ipynb', nbformat.from_dict(copy.deepcopy(a)), d, cfg),
+                     make_cfg(0, False, False, tool), data)
+        if out is None:
+            continue
+        body = out.splitlines()[3:]
+        for text, marks, what in [(x, '-<', 'removed') for x in removed] + [(x, '+>', 'added') for x in added]:
+            if not any(ln[:1] in marks and text in ln[1:] for ln in body):
+                ctx.violation('the %s source line %r is not shown by the %s renderer' % (what, text, tool), dict(data, kind='line-not-shown', line=text))
     # CLI legs: exit status and no ANSI with --no-color
     env = dict(os.environ, PYTHONPATH=vlib.REPO)
     with tempfile.TemporaryDirectory(prefix='verif-c16-') as td:
